@@ -23,9 +23,10 @@ const ruleText = "E1 bounded-exhaustive over the public client API against a rec
 	"empty, plain atom, SP (needs quoting), DQUOTE and backslash (escapes), CRLF and NUL (never quotable: literal), valid 2-byte UTF-8 and a lone 0xFF (8-bit: literal unless quoted UTF-8 is on), " +
 	"literal look-alike {3}, list delimiter '(', list wildcards %*, '&' inside and alone (modified UTF-7 shift), NIL, inbox (case fold), 4097 bytes (> quoted/LITERAL- limit) " +
 	"+ boundary extras 4096 bytes and a 4096-byte 8-bit string (largest non-synchronising LITERAL- literal). Every string position of every command takes every symbol (others benign), then all pairs of positions take all pairs of symbols. " +
-	"Boolean options: all subsets (STATUS 2^8 items the server parses; LIST 2^3 selection x 2^2 return x (no STATUS + 2^8 STATUS items); FETCH 3x2^5 attribute sets x representative sections, all 144 body-section shapes " +
+	"Boolean options: all subsets (STATUS 2^8 items the server parses; LIST 2^3 selection x 2^2 return x (no STATUS + 2^8 STATUS items); FETCH 3x2^5 attribute sets x representative sections (thorough: x every section shape), all 144 body-section shapes " +
 	"(part [] [1] [1.2] x none/HEADER/TEXT/MIME/HEADER.FIELDS 1-2 names/HEADER.FIELDS.NOT 1-2 names x partial none <0.1> <5.4294967295> x PEEK) + 18 BINARY + 3 BINARY.SIZE shapes, pairs of sections; SEARCH RETURN 2^5). " +
-	"SEARCH criteria: every tree skeleton of Not/Or wrappers with <= 2 leaf slots up to the nesting depth of the tier, filled with every leaf kind (31 kinds: one per branch of writeSearchKey/readSearchKeyWithAtom). " +
+	"SEARCH criteria: every tree skeleton of Not/Or wrappers with <= 2 leaf slots up to the nesting depth of the tier, filled with every leaf kind (31 kinds: one per branch of writeSearchKey/readSearchKeyWithAtom; quick: singles over all kinds at depth <= 2, pairs over all kinds at depth 0 and over 14 branch representatives at depth <= 2; thorough: all pairs at depth <= 2, the 14 representatives at depth 3); " +
+	"every well-known and some unknown header keys in several spellings; every date field x 6 dates x 3 zones x 2 times of day incl. the ON-shaped pairs. " +
 	"Number sets: every set reachable by <= 3 AddNum/AddRange insertions over endpoints {1,2,3,5,2^32-2,2^32-1,*}, both flavours, through FETCH; <= 2 insertions and $ through STORE/COPY/MOVE/UID EXPUNGE/SEARCH. " +
 	"STORE 3 ops x silent x flag lists of length 0-2; APPEND flag lists 0-2 x 4 dates x payload sizes {0,1,4096,4097} x {plain, CRLF and '{n}' inside}."
 
